@@ -418,7 +418,15 @@ func c13SortedPerm(key func(int) int, inp, out []int) bool {
 	return true
 }
 
-func c13RunCase(c *Ctx, or *Oracle, cs *c13Case) {
+type c13Fail struct {
+	name, summary string
+	replay        map[string]any
+	noInput       bool
+	size          int
+}
+
+// returns nil when implementation, specification and model agree
+func c13RunCase(c *Ctx, or *Oracle, cs *c13Case) *c13Fail {
 	var got string
 	if cs.Type == "string" {
 		got = c13Real(c13Str, cs)
@@ -465,13 +473,36 @@ func c13RunCase(c *Ctx, or *Oracle, cs *c13Case) {
 			corrBad = fmt.Sprintf("%s returned %s (= the Go-side specification), the model says %s", cs.Fn, got, model)
 		}
 	}
+	size := 0
+	for _, l := range cs.Ins {
+		size += 1 + len(l)
+	}
 	if propBad != "" {
 		c.Disagree()
-		c.Violate("prop-"+cs.Fn, fmt.Sprintf("%s %s: %s", cs.Type, req, propBad), map[string]any{"case": cs, "request": req, "got": got}, false)
+		return &c13Fail{"prop-" + cs.Fn, fmt.Sprintf("%s %s: %s", cs.Type, req, propBad), map[string]any{"case": cs, "request": req, "got": got}, false, size}
 	} else if corrBad != "" {
 		c.Disagree()
-		c.Violate("corr-"+cs.Fn, fmt.Sprintf("correspondence model vs pkg/slice broke on %s %s: %s", cs.Type, req, corrBad),
-			map[string]any{"broken": "correspondence C13 (Pkg/SliceHeap.v) vs pkg/slice", "case": cs, "request": req, "got": got}, true)
+		return &c13Fail{"corr-" + cs.Fn, fmt.Sprintf("correspondence model vs pkg/slice broke on %s %s: %s", cs.Type, req, corrBad),
+			map[string]any{"broken": "correspondence C13 (Pkg/SliceHeap.v) vs pkg/slice", "case": cs, "request": req, "got": got}, true, size}
+	}
+	return nil
+}
+
+// the smallest failing inputs first (the exhaustive small scope makes shrinking unnecessary)
+func c13Report(c *Ctx, fails []*c13Fail) {
+	sort.SliceStable(fails, func(i, j int) bool {
+		if fails[i].noInput != fails[j].noInput {
+			return !fails[i].noInput
+		}
+		return fails[i].size < fails[j].size
+	})
+	seen := map[string]int{}
+	for _, f := range fails {
+		if seen[f.name] >= 1 {
+			continue
+		}
+		seen[f.name]++
+		c.Violate(f.name, f.summary, f.replay, f.noInput)
 	}
 }
 
@@ -628,6 +659,7 @@ func c13Random(rng *Rng, typ string) *c13Case {
 }
 
 func runC13(c *Ctx) {
+	sliceInventory(c)
 	c.Res.Rule = "every function of pkg/slice on all int and string slices of length <= 4 over a 3-value alphabet (exhaustive; " +
 		"two-argument functions on all pairs of them, Concat on all lists of <= 3 slices of length <= 2), every index/count from " +
 		"-2 to len+2, every callback of the shared family; plus random slices up to length 40 (sorted, reversed, with duplicates); " +
@@ -646,7 +678,9 @@ func runC13(c *Ctx) {
 		if err := json.Unmarshal(b, &f); err != nil {
 			panic(err)
 		}
-		c13RunCase(c, c.Oracle(), &f.Replay.Case)
+		if f := c13RunCase(c, c.Oracle(), &f.Replay.Case); f != nil {
+			c13Report(c, []*c13Fail{f})
+		}
 		return
 	}
 	var cases []*c13Case
@@ -681,26 +715,46 @@ func runC13(c *Ctx) {
 	c.CountN("exhaustive_cases", len(cases))
 	rng := NewRng(c.Seed)
 	nr := c.Pick(40000, 1500000)
-	for i := 0; i < nr; i++ {
-		typ := "int"
-		if i%3 == 2 {
-			typ = "string"
-		}
-		cases = append(cases, c13Random(rng, typ))
-	}
 	c.CountN("random_cases", nr)
-	for i := 0; i < len(cases); i += len(cases)/5 + 1 {
+	for i := 0; i < len(cases); i += len(cases)/4 + 1 {
 		c.Sample(map[string]any{"case": cases[i], "request": c13Sexp(cases[i])})
 	}
 	workers := 12
 	chunk := (len(cases) + workers - 1) / workers
+	rngs := make([]*Rng, workers)
+	for w := range rngs {
+		rngs[w] = rng.Fork()
+	}
+	fails := make([][]*c13Fail, workers)
 	Parallel(workers, func(w int) {
 		or := c.NewOracle()
 		defer or.Close()
+		run := func(cs *c13Case) {
+			if f := c13RunCase(c, or, cs); f != nil && len(fails[w]) < 200 {
+				fails[w] = append(fails[w], f)
+			}
+		}
 		for i := w * chunk; i < (w+1)*chunk && i < len(cases); i++ {
-			c13RunCase(c, or, cases[i])
+			run(cases[i])
+		}
+		// random cases are generated per worker from a forked stream (reproducible, nothing kept in memory)
+		for i := w; i < nr; i += workers {
+			typ := "int"
+			if i%3 == 2 {
+				typ = "string"
+			}
+			cs := c13Random(rngs[w], typ)
+			if i < 2 {
+				c.Sample(map[string]any{"case": cs, "request": c13Sexp(cs)})
+			}
+			run(cs)
 		}
 	})
+	var all []*c13Fail
+	for _, fs := range fails {
+		all = append(all, fs...)
+	}
+	c13Report(c, all)
 }
 
 func init() { Register("C13", runC13) }
